@@ -42,7 +42,8 @@ D5 == [ int1 |-> <<"int", 1>>, f1 |-> <<"f64", FALSE, <<1>>, 0>>, f01 |-> <<"f64
 \* (two integers no float64 holds: 2^62 + 1 nested, 2^53 + 1 at the top)
 D16 == [ m |-> <<"map", [a |-> <<"map", [b |-> <<"map", [a |-> <<"int64", FALSE, <<4,6,1,1,6,8,6,0,1,8,4,2,7,3,8,7,9,0,5>>>>, z |-> <<"nil">>]>>, z |-> <<"int", 0>>, n |-> <<"nilptr">>]>>,
                          b |-> <<"str", <<120>>>>, z |-> <<"nil">>, len |-> <<"int", 3>>]>>,
-         tm |-> <<"tmapint", [a |-> 5, z |-> 0]>>,
+         tm |-> <<"tmapint", [a |-> 5, z |-> 0]>>, ts |-> <<"tmapstr", [a |-> <<120>>, z |-> <<>>, true |-> <<116>>]>>,
+         true |-> <<"int", 8>>, null |-> <<"int", 9>>,
          st |-> <<"struct", [A |-> <<"int", 4>>, B |-> <<"map", [a |-> <<"f64", FALSE, <<2,5>>, -1>>]>>, N |-> <<"nilptr">>, P |-> <<"str", <<112>>>>], <<"c">>>>,
          nm |-> <<"nilmap">>, ns |-> <<"nilslice">>,
          np |-> <<"nilptr">>, nl |-> <<"nil">>, s |-> <<"str", <<97>>>>, n |-> <<"int64", TRUE, <<9,0,0,7,1,9,9,2,5,4,7,4,0,9,9,3>>>>, a |-> <<"int32", 9>>,
@@ -50,7 +51,8 @@ D16 == [ m |-> <<"map", [a |-> <<"map", [b |-> <<"map", [a |-> <<"int64", FALSE,
          tt |-> <<"time", 0, 0, 0>> ]
 \* C07: locals, caller-owned numbers, recorder
 D7 == [ x |-> <<"dec", FALSE, <<5>>, 0>>, y |-> <<"map", [k |-> <<"dec", TRUE, <<2,5>>, -1>>, l |-> <<"slice", <<<<"int", 1>>, <<"int", 2>>>>>>]>>,
-        n |-> <<"int", 3>>, rec |-> <<"func", "rec">>, recs |-> <<"func", "recs">>, fail |-> <<"func", "fail">> ]
+        n |-> <<"int", 3>>, rec |-> <<"func", "rec">>, recs |-> <<"func", "recs">>, fail |-> <<"func", "fail">>,
+        rows |-> <<"slice", << <<"map", [name |-> <<"str", <<97>>>>, note |-> <<"nil">>]>>, <<"map", [name |-> <<"str", <<98>>>>, note |-> <<"int", 1>>]>> >>>> ]
 D7b == [ x |-> <<"int", 1>>, rec |-> <<"func", "rec">>, recs |-> <<"func", "recs">>, fail |-> <<"func", "fail">> ] @@ ("$a" :> <<"dec", FALSE, <<9>>, 0>>)
 \* C03: one entry per supported kind, incl. the odd ones
 D3 == [ i |-> <<"int", 2>>, f |-> <<"f64", FALSE, <<1,5>>, -1>>, s |-> <<"str", <<97,98>>>>, b |-> <<"bool", TRUE>>, nl |-> <<"nil">>,
@@ -127,7 +129,7 @@ Frame ==
 \* C10 sufficiency on the specification: for a formula the analysis accepts and that does not use
 \* `this`, the restricted data map gives the same value / error and the same host calls and locals
 Sufficiency ==
-  (IsCase /\ d = "D10min" /\ Fields(tree)[1] = "ok" /\ ~UsesThis(tree)) =>
+  (IsCase /\ d = "D10min" /\ Fields(tree)[1] = "ok" /\ ~UsesThis(tree) /\ ~(out[1] = "ok" /\ out[2] = <<"ANY">>)) =>       \* (not where only a law is pinned)
      LET full == Eval(tree, [this |-> NormMap(D10), log |-> <<>>])
          Loc(o) == IF o[1] = "unspec" THEN <<>> ELSE
                    LET st1 == IF o[1] = "ok" THEN o[3] ELSE o[2] IN
